@@ -2,6 +2,7 @@
 from contracts.C03_container_validate import ContainerValidate
 from contracts.C03_series_validate import SeriesSchemaValidate
 from contracts.C04_field_validate import ArrayValidate, IndexValidate
+from contracts.C02_coerce_helper import CoerceDtypeHelper
 from contracts.C06_run_checks import ArrayRunChecks, ColumnRunChecks, ContainerRunChecks
 
-CONTRACTS = [ContainerValidate, SeriesSchemaValidate, ArrayValidate, IndexValidate, ArrayRunChecks, ColumnRunChecks, ContainerRunChecks]
+CONTRACTS = [ContainerValidate, SeriesSchemaValidate, ArrayValidate, IndexValidate, ArrayRunChecks, ColumnRunChecks, ContainerRunChecks, CoerceDtypeHelper]
